@@ -65,6 +65,14 @@ pub fn prepare(root: &Path) -> PathBuf {
     std::fs::write(manifest.join("fixtures/app/file.txt"), b"fixture file").unwrap();
     std::fs::write(manifest.join("fixtures/app/remove-me.txt"), b"to be removed by the preprocessor").unwrap();
     std::fs::write(manifest.join("fixtures/app/sub/inner"), b"inner").unwrap();
+    // bind-mount sources that exist on the host (C17): a directory and a symbolic link to it
+    std::fs::create_dir_all(manifest.join("mnt/real")).unwrap();
+    std::os::unix::fs::symlink("real", manifest.join("mnt/link")).unwrap();
+    // a fixture that cannot be copied (C16: a build failing while it is prepared must not leave the partial copy behind)
+    std::fs::create_dir_all(manifest.join("fixtures/broken-app/sub")).unwrap();
+    std::fs::write(manifest.join("fixtures/broken-app/a-file.txt"), b"copied before the failure").unwrap();
+    std::fs::write(manifest.join("fixtures/broken-app/sub/another"), b"x").unwrap();
+    std::os::unix::fs::symlink("does/not/exist", manifest.join("fixtures/broken-app/sub/zz-dangling")).unwrap();
     // a read-only fixture file that the preprocessor makes writable and extends IN PLACE: the copy must be a copy
     std::fs::create_dir_all(manifest.join("fixtures/app/vendor")).unwrap();
     std::fs::write(manifest.join("fixtures/app/vendor/readonly.sh"), b"read-only fixture file").unwrap();
@@ -117,7 +125,8 @@ pub fn run_scenario_env(root: &Path, scn: &Value, fail_at: Option<u64>, pack_fai
         cmd.env("VSTUB_FAIL_AT", n.to_string());
     }
     // failure flavour: derived from the scenario so that it is reproducible from the replay file
-    const CODES: [i32; 5] = [1, 125, 126, 127, 2];
+    // -9: the command does not exit, it is killed by SIGKILL (an OOM kill on CI)
+    const CODES: [i32; 6] = [1, 125, 126, 127, 2, -9];
     const MSGS: [&str; 5] = [
         "vstub: injected failure",
         "docker: Error response from daemon: No such image.",
